@@ -1,6 +1,6 @@
 From Coq Require Import List Arith NArith ZArith Bool.
 From SH Require Import base.Pool gen.Extracted_channel channel.Defs channel.Word channel.Model channel.Skeleton
-  channel.Inv channel.Steps channel.Fifo channel.Account channel.Reach props.C06.
+  channel.Inv channel.Steps channel.Fifo channel.Account channel.Reach channel.ModelRA channel.InvRA channel.FifoRA props.C06.
 Import ListNotations.
 Local Open Scope N_scope.
 Check C06_words :
@@ -45,9 +45,30 @@ Check C06_empty_only_when_empty :
   run init_world ls = ((s, fs), es) -> nth_error fs k = Some f -> fstep s f c = (s', f', es') ->
   fkind f = KRecv -> fpc f <> PDone -> fpc f' = PDone -> got f' = None ->
   qf s = 0 /\ decode (qf s) = [] /\ map fst (g_in s) = g_out s /\ tick f' = None.
+Check C06_fifo_ra :
+  forall ls,
+  let w := grun ginit_world ls in
+  let s := fst (fst w) in let fs := snd (fst w) in let g := snd w in
+  fst w = rrun rinit_world ls /\
+  map fst (gi g) = go g ++ decode (mval (lastm (mf s))) /\
+  (forall k f v, nth_error fs k = Some f -> rkind f = KRecv -> rgot f = Some v ->
+     exists t i, tick_of g k = Some t /\ nth_error (gi g) t = Some (i, v) /\ nth_error (go g) t = Some i) /\
+  (forall k f v t, nth_error fs k = Some f -> rkind f = KSend v -> tick_of g k = Some t ->
+     nth_error (gi g) t = Some (ridx f, v) /\ rpcf f = RDone) /\
+  (forall j k f f2 t, j <> k -> nth_error fs j = Some f -> nth_error fs k = Some f2 ->
+     (rkind f = KRecv <-> rkind f2 = KRecv) -> tick_of g j = Some t -> tick_of g k = Some t -> False).
+Check C06_gives_up_on_zero_ra_partial :
+  forall ls k f c s' f',
+  let s := fst (rrun rinit_world ls) in let fs := snd (rrun rinit_world ls) in
+  nth_error fs k = Some f -> rstep s f c = (s', f') ->
+  rpcf f = RDeqLoad \/ rpcf f = RDeqCas -> rpcf f' = RDone ->
+  exists t m, (rview f (qloc (deq_q (rkind f))) <= t)%nat /\
+              nth_error (msgs s (deq_q (rkind f))) t = Some m /\ mval m = 0.
 Print Assumptions C06_words.
 Print Assumptions C06_valid_words_counted.
 Print Assumptions C06_fifo.
 Print Assumptions C06_effects_ordered.
 Print Assumptions C06_drop_only_when_full.
 Print Assumptions C06_empty_only_when_empty.
+Print Assumptions C06_fifo_ra.
+Print Assumptions C06_gives_up_on_zero_ra_partial.
